@@ -102,7 +102,15 @@ def check_outputs(b, sol, hist, times, eps, viol, stats, *, label, compare_first
             if ec > tol_c:
                 viol.append({"inv": "RTS-cov", "msg": f"[{label}] smoothed covariance at output {i} (t={times[i]:.6g}) differs from the reference RTS posterior: {ec:.2e} (tol {tol_c:.1e})"})
         if not onp.all(onp.isfinite(m)) or not onp.all(onp.isfinite(P)):
-            viol.append({"inv": "RTS-finite", "msg": f"[{label}] non-finite smoothing marginal at output {i}"})
+            v = {"inv": "RTS-finite", "msg": f"[{label}] non-finite smoothing marginal at output {i}"}
+            # finding predicate (root cause of KF-C01 / KF-C02-dynamic-zero-residual): dynamic calibration whose mean-only
+            # residual cancels to exactly 0.0 -- some reported output scale is 0 or non-finite
+            osc_ = onp.asarray(sol.output_scale, dtype=float)
+            if cfg["calib"] == "dynamic" and not onp.all(osc_ > 0):
+                v = {"inv": "RTS-finite-dynamic-zero-residual", "finding": "KF-C03-dynamic-zero-residual",
+                     "msg": f"[{label}] non-finite smoothing marginal at output {i} after a dynamically calibrated step with output scale 0 / nan"}
+            viol.append(v)
+            break
     # the backward gain G = P^f Phi^T (Phi P^f Phi^T + Q)^-1 is an exact function of the library's own filtering state
     # (verified step-locally in 50 digits: 9e-13), so a forward-pass covariance error e re-appears in the gain -- and in the
     # cross-covariances -- multiplied by the conditioning of the predicted covariance it solves with (observed: e = 2.9e-8,
